@@ -571,3 +571,71 @@ func firstN(os []cOrigin, n int) []string {
 	}
 	return out
 }
+
+// ---------------------------------------------------------------- binding G for C03: replay of ReqParseMC's byte strings
+
+func cmdC03Gen(args []string) {
+	fs := flag.NewFlagSet("c03gen", flag.ExitOnError)
+	caseFile := fs.String("cases", "", "cases written by TLC (ReqParseMC.tla)")
+	out := fs.String("out", "", "summary JSON")
+	fs.Parse(args)
+	type cs struct {
+		B       []int `json:"b"`
+		Lenient bool  `json:"lenient"`
+		Member  bool  `json:"member"`
+		Strict  bool  `json:"strict"`
+		F4      bool  `json:"f4"`
+	}
+	var all []cs
+	readCases(*caseFile, func(line []byte) {
+		var c cs
+		if err := json.Unmarshal(line, &c); err != nil {
+			fatal("bad case: %v", err)
+		}
+		all = append(all, c)
+	})
+	// the configuration of ReqParseMC.tla, and an allow-all one that shows whether the scanner accepts the bytes
+	pats := []string{"h://a", "h://a.a:1", "h://*.a:*", "h://[::1]:10", "h://1.1.1.1"}
+	m, err := cors.NewMiddleware(cors.Config{Origins: pats, ExtraConfig: cors.ExtraConfig{DangerouslyTolerateSubdomainsOfPublicSuffixes: true}})
+	if err != nil {
+		fatal("c03gen config: %v", err)
+	}
+	anyMW, err := cors.NewMiddleware(cors.Config{Origins: []string{"*"}})
+	if err != nil {
+		fatal("c03gen config: %v", err)
+	}
+	h, hany := m.Wrap(okHandler), anyMW.Wrap(okHandler)
+	var evals, members, drift, f4 int
+	var violations, drifts []map[string]any
+	var samples []any
+	for i, c := range all {
+		o := fromCodes(c.B)
+		act, pf := originAllowedByMiddleware(h, o)
+		w := newRec()
+		hany.ServeHTTP(w, newReq("OPTIONS", http.Header{"Origin": {o}, "Access-Control-Request-Method": {"GET"}}))
+		lenient := w.status >= 200 && w.status < 300
+		evals++
+		if act {
+			members++
+		}
+		echoed := act || pf
+		if echoed && !c.Strict {
+			if c.F4 {
+				f4++
+			} else if len(violations) < 30 {
+				violations = append(violations, map[string]any{"origin": o, "echoed_actual": act, "echoed_preflight": pf})
+			}
+		}
+		if act != c.Member || pf != c.Member || lenient != c.Lenient {
+			drift++
+			if len(drifts) < 10 {
+				drifts = append(drifts, map[string]any{"origin": o, "model_member": c.Member, "model_lenient": c.Lenient, "actual": act, "preflight": pf, "scanner_accepts": lenient})
+			}
+		}
+		if c.Member && len(samples) < 5 && i%7 == 0 {
+			samples = append(samples, map[string]any{"origin": o, "member": c.Member, "strict": c.Strict})
+		}
+	}
+	writeJSON(*out, map[string]any{"cases": len(all), "evaluations": evals, "members": members, "f4_instances": f4, "drift": drift,
+		"drifts": drifts, "violations": violations, "samples": samples})
+}
